@@ -1,8 +1,8 @@
 package main
 
 import (
-	"context"
 	"fmt"
+	"os"
 
 	"verif/harness/h"
 )
@@ -13,14 +13,27 @@ func main() {
 	if err != nil {
 		panic(err)
 	}
-	for _, p := range []h.Path{h.P("sys", "dns"), h.P("refs", "ll"), h.P("if", "tags"), h.P("sys", "hostname")} {
-		se, err := u.GetSchema(context.Background(), p.Sdcpb())
-		fmt.Println(p, err)
-		if ll := se.GetLeaflist(); ll != nil {
-			fmt.Println("  min", ll.MinElements, "max", ll.MaxElements)
-		}
-		if f := se.GetField(); f != nil {
-			fmt.Println("  patterns", f.GetType().GetPatterns())
-		}
+	dir, _ := h.ScratchDir("probe")
+	defer os.RemoveAll(dir)
+	cc, err := h.NewLocalCache(dir)
+	if err != nil {
+		panic(err)
 	}
+	frags := h.ChoiceFragments()
+	run := func(ops ...h.Op) {
+		w, err := h.NewWorld(u, cc, nil, h.WorldOpts{Fragments: frags})
+		if err != nil {
+			panic(err)
+		}
+		defer w.Close()
+		for _, op := range ops {
+			out := w.Apply(op)
+			c := w.Dev.Calls[len(w.Dev.Calls)-1]
+			fmt.Println(op, "rej:", out.Rejected(), "err:", out.Err, "upd:", c.Updates, "del:", c.Deletes)
+		}
+		fmt.Println("  device:", w.Dev.Snapshot())
+	}
+	S := func(o string, p int32, f string) h.Op { return h.Op{Intents: []h.IntentSpec{{Owner: o, Prio: p, Frag: f}}} }
+	run(S("B", 20, "cb1"), S("A", 25, "cb1"), S("A", 10, "ca1"))
+	run(S("A", 25, "cpc"), S("C", 30, "cab"), S("A", 10, "ca1"))
 }
